@@ -497,6 +497,63 @@ def rule_scan(repo):
 
 
 @guarded
+def rule_bufcopy(repo):
+    """The initial state (pos, rot, vel) the integrator composes every result with is a COPY of what the constructor was given: the defaults are tensors created
+    once when the class is defined (shared by every instance) and an explicit argument is the caller's tensor.  Registered through view-preserving steps only
+    (_check adds axes, detach shares storage) the state buffer aliases them: an in-place write on either side silently moves the initial state of this - or, for
+    the defaults, of every later - integrator."""
+    res = RuleResult('C16.BUFCOPY', 'IMUPreintegrator.__init__: the state buffers pos / rot / vel are registered from a copy (clone / a fresh tensor) of the constructor '
+                     'argument, never from a view of it', floor=3)
+    f = repo.func(IMU, CLS + '.__init__')
+    params = set(f.params)
+    n = 0
+    for c in paths.calls_in(f.node):
+        if not (isinstance(c.func, ast.Attribute) and c.func.attr == 'register_buffer' and len(c.args) >= 2 and isinstance(c.args[0], ast.Constant)):
+            continue
+        name = c.args[0].value
+        if name not in ('pos', 'rot', 'vel'):
+            continue
+        n += 1
+        e = c.args[1]
+        fresh = False
+        while True:
+            if isinstance(e, ast.Call) and isinstance(e.func, ast.Attribute) and not (dotted(e.func) or '').startswith('torch.'):
+                if e.func.attr in ('clone',):
+                    fresh = True
+                    break
+                if dotted(e.func) == 'self._check' and e.args:
+                    e = e.args[0]
+                    continue
+                if e.func.attr in ('detach', 'view', 'unsqueeze', 'squeeze', 'expand', 'reshape', 'contiguous', 'to', 'float', 'double', 'requires_grad_', 'tensor', 'lview'):
+                    e = e.func.value
+                    continue
+                fresh = True                               # any other method computes a new tensor
+                break
+            if isinstance(e, ast.Call):
+                d = dotted(e.func) or ''
+                if d in ('torch.atleast_1d', 'torch.atleast_2d', 'torch.atleast_3d', 'torch.as_tensor', 'torch.detach') and e.args:
+                    e = e.args[0]
+                    continue
+                fresh = True
+                break
+            if isinstance(e, ast.Subscript):
+                e = e.value
+                continue
+            break
+        aliased = (not fresh) and isinstance(e, ast.Name) and e.id in params
+        res.inst({'function': f.fq, 'buffer': name, 'registered from': src(c.args[1])[:50], 'copy': fresh}, (f.fq, name))
+        if aliased:
+            res.add(Finding('C16.BUFCOPY', f, 'the state buffer `%s` is registered from `%s`, a view of the constructor argument `%s` (its default is ONE tensor shared by all '
+                            'instances): an in-place write to the caller\'s tensor, or to the buffer of another default-constructed integrator, changes the initial state '
+                            'every later result is composed with' % (name, src(c.args[1])[:50], e.id), node=c, construct='state buffer aliases ' + name))
+        elif not fresh:
+            raise AnalysisError('C16.BUFCOPY: the origin of buffer %s was not understood' % name)
+    if n < 3:
+        raise AnalysisError('C16.BUFCOPY: found %d of the state buffers pos / rot / vel' % n)
+    return res
+
+
+@guarded
 def rule_recur(repo):
     """dp <- dp + dv dt + 1/2 dR a dt^2 with dv the ACCUMULATED velocity increment and dR the ACCUMULATED rotation: in the vectorised form the position
     summand of frame k multiplies dt with the k-th entry of the cumulative velocity table (the output of the cumsum scan), and the acceleration terms are
@@ -540,7 +597,7 @@ def _rules_core(repo, tier):
     from ..effects import rule_pure
     from ..fresh import rule_fresh
     t = [(IMU, CLS + '.forward'), (IMU, CLS + '.integrate'), (IMU, CLS + '.predict'), (IMU, CLS + '.propagate_cov'), (IMU, CLS + '._check')]
-    return [rule_grav(repo), rule_scan(repo), rule_recur(repo), rule_stateax(repo), rule_covord(repo), rule_carry(repo), rule_rank(repo), rule_dir_comp(repo), rule_dep(repo), rule_init(repo), rule_cov(repo),
+    return [rule_grav(repo), rule_scan(repo), rule_recur(repo), rule_bufcopy(repo), rule_stateax(repo), rule_covord(repo), rule_carry(repo), rule_rank(repo), rule_dir_comp(repo), rule_dep(repo), rule_init(repo), rule_cov(repo),
             rule_pure(repo, 'C16.PURE', 'the integrator does not write in place into the measurement tensors it is given (dt, gyro, acc, rot, init_state): '
                       'feeding the same stream again, whole or in chunks, starts from the same data', t),
             rule_fresh(repo, 'C16.FRESH', 'nothing the integrator writes in place is loaded from the integrator object (the carried state is rebound, '
